@@ -8,8 +8,15 @@ Oracle (implementation only): the fragments of every payload concatenate to it, 
 one datagram, count 2..MAX_FRAGMENTS; small payloads travel as one APP message; too large ->
 ValueError, nothing queued; over a network with reordering / duplication / delay (and loss) the
 multiset of payloads delivered to the application is a sub-multiset of the payloads sent, equal
-to it when nothing is lost."""
-import struct, collections
+to it when nothing is lost.
+Object identity vs equality ("fresh" sessions): the application builds every payload right in the send call
+(send(make(i)), UdpClient.send / send_guaranteed and the server-side send / send_guaranteed) and keeps nothing; the harness
+keeps only sha256 + length (netsim.Net.send_fresh), so payload objects are freed as soon as the implementation lets go of
+them and later payloads of the same length get the same address (counted: fresh_address_reused).  Runs of equal lengths,
+two alternating lengths, equal lengths on both sides of the process (client and server connection share every class
+attribute), three ways of building the object, a bytearray (must be refused or delivered intact); delivered digests are
+compared with sent digests, and the histories are replayed on Conn.v with the payloads rebuilt from the generator."""
+import struct, collections, hashlib
 from harness import lib
 from harness import connsim as S
 from harness import packlib as P
@@ -433,6 +440,149 @@ def arrival_span(net, who, payload):
     return None, 0
 
 
+FRESH_RULE = ("fresh sessions: payloads built inside the send call and never referenced by the harness (digest + length only); runs of "
+              "2..6 equal fragmented lengths back to back, two alternating lengths, the same length from both endpoints of the "
+              "process, lengths around MAX_PAYLOAD_SIZE and k*MAX_FRAGMENT_SIZE, three construction styles, all retry modes, "
+              "send and send_guaranteed, both roles, plain / reordering / duplicating networks; non-trivial = a session in which a "
+              "fragmented payload was allocated at the address of an earlier, freed payload of the same length")
+
+
+def make_payload(i, n, style):
+    """a FRESH object of n bytes whose content depends on i (deterministic); three ways an application might build it"""
+    seed = b"fresh-%d-%d" % (i, n)
+    if style == 0:
+        return hashlib.shake_256(seed).digest(n)               # one allocation of the final object
+    if style == 1:
+        buf = bytearray(n)                                     # fill a buffer, then freeze it
+        tag = hashlib.sha256(seed).digest()
+        for k in range(0, n, 512):
+            buf[k:k + 32] = tag[:max(0, min(32, n - k))]
+        if n >= 32:
+            buf[-32:] = tag
+        return bytes(buf)
+    return ((b"%09d/" % i) * (n // 10 + 1))[:n]                  # repeat + slice
+
+
+def fresh_session(run, mtu, cfg, label, frames=40):
+    from harness import netsim as N
+    r = run.rng
+    mp = mtu - 66
+    mf = mp - 6 if mp < 1030 else 1024
+    net = N.Net(run, r, cfg, mtu=mtu)
+    case = {"kind": label, "mtu": mtu, "cfg": dict(cfg)}
+    last_id = {}          # length -> id() of the last payload of that length (an integer, not a reference)
+    reused = 0
+    plan = []
+    serial = [0]
+    refused = 0
+    try:
+        # lengths of 2..4 fragments; one datagram per frame carries about one fragment, so the bursts are spaced for the
+        # queues to drain (fragments of one message then arrive well inside the receiver's expiry bound, cf. D17)
+        A = r.choice([mp + 1, mp + 2, 2 * mf, 2 * mf + 1, 3 * mf + 7, r.randrange(mp + 1, 4 * mf)])
+        B = r.choice([x for x in (mp + 1, mp + 3, 2 * mf - 1, 3 * mf, r.randrange(mp + 1, 4 * mf)) if x != A])
+        for f in range(frames):
+            if f % 8 == 0:
+                mode = r.choice(["run", "run", "alternate", "both-sides", "mixed"])
+                style = r.choice([0, 1, 2])
+                retry = r.choice([0, 1, -1])
+                api = r.random() < 0.5
+                who = r.choice(["client", "server"])
+                k = r.choice([2, 2, 3, 4])
+                if mode == "run":
+                    burst = [(who, A)] * k
+                elif mode == "alternate":
+                    burst = [(who, A if j % 2 == 0 else B) for j in range(k + 1)] + [(who, A)]
+                elif mode == "both-sides":
+                    burst = [(w, A) for j in range(k) for w in (who, net.other(who))][:k + 1]
+                else:
+                    burst = [(who, r.choice([A, A, B, 0, 7, mp, mp - 1])) for j in range(k)]
+                for w, n in burst:
+                    serial[0] += 1
+                    i = serial[0]
+                    mid = net.send_fresh(w, lambda i=i, n=n, style=style: make_payload(i, n, style), retry, api=api)
+                    rec = net.sent[w][mid]
+                    if n > mp and last_id.get(n) == rec["id"]:
+                        reused += 1
+                    last_id[n] = rec["id"]
+                    plan.append([w, n, style, retry, 1 if api else 0])
+                    run.evaluations += 1
+                if f == 8:
+                    # not bytes: refused at the door (TypeError) or, if it were accepted, delivered intact — never something else
+                    ba = bytearray(make_payload(10 ** 6 + f, A, 0))
+                    q0 = len(net.ep(who).impl.conn.outgoing_messages)
+                    try:
+                        net.ep(who).impl.conn.send(ba)
+                        raise RuntimeError("bytearray payload accepted: extend the fresh sessions to mutate it between sends")
+                    except TypeError:
+                        refused += 1
+                        if len(net.ep(who).impl.conn.outgoing_messages) != q0:
+                            run.oracle_violation("refused-payload-left-something-queued", dict(case, length=A), "ConnectionBase.send")
+            net.step()
+        for _ in range(400):
+            if not (net.A.impl.conn.outgoing_messages or net.B.impl.conn.outgoing_messages):
+                break
+            net.step()
+        net.healed = True
+        for _ in range(30):
+            net.step()
+        diffs = net.check_models()
+    finally:
+        net.close()
+    case["sends"] = plan[:40]
+    case["n_sends"] = len(plan)
+    run.compare("conn_run", [dict(case, endpoint="both")], [diffs[0] if diffs else None], [None])
+    ok = True
+    for who in ("client", "server"):
+        peer = net.other(who)
+        sent = collections.Counter(rec["digest"] for rec in net.sent[who].values() if rec["accepted"])
+        lens = {rec["digest"]: rec["len"] for rec in net.sent[who].values()}
+        got = collections.Counter(hashlib.sha256(p).digest() for t, p in net.delivered[peer])
+        glen = {hashlib.sha256(p).digest(): len(p) for t, p in net.delivered[peer]}
+        fabricated = got - sent
+        if fabricated:
+            d0 = list(fabricated)[0]
+            run.oracle_violation("delivered-message-not-sent-or-duplicated",
+                                 dict(case, sender=who, length=glen[d0], times=got[d0], sent_times=sent[d0],
+                                      not_delivered=sum((sent - got).values()), address_reuses_so_far=reused,
+                                      delivered_sha256=d0.hex()[:16]), "FragmentSender.build/_recvAppFragment")
+            ok = False
+            continue
+        missing = sent - got
+        if missing:
+            d0 = list(missing)[0]
+            run.oracle_violation("sent-message-not-delivered",
+                                 dict(case, sender=who, length=lens[d0], n_missing=sum(missing.values()),
+                                      length_minus_max_payload=lens[d0] - mp), "_recvAppFragment")
+            ok = False
+    for t, who, where, code, *rest in net.raised:
+        run.oracle_violation("raised", dict(case, endpoint=who, where=where, error=code), "ConnectionBase")
+        ok = False
+        break
+    run.count("net_" + label)
+    run.count("fresh_sends", len(plan))
+    run.count("fresh_address_reused", reused)
+    run.count("non_bytes_payload_refused", refused)
+    if reused:
+        run.nt((label, mtu, len(plan)))
+    return ok, reused
+
+
+def fresh(run):
+    r = run.rng
+    scheds = [{"tick": 300}, {"tick": 300}, {"tick": 300, "reorder": 0.4, "max_delay": T // 4}, {"tick": 300, "dup": 0.4, "max_delay": T // 4}]
+    total = 0
+    for rep in range(10 if run.thorough() else 2):
+        for n, cfg in enumerate(scheds):
+            mtu = r.choice([512, 1096, 1500, 1500, r.randrange(512, 1501)])
+            ok, reused = fresh_session(run, mtu, cfg, "fresh")
+            total += reused
+            if not ok:
+                return
+    if total == 0:
+        raise RuntimeError("no fresh payload was ever allocated at the address of an earlier one: the harness is not exercising "
+                           "the identity-vs-equality surface")
+
+
 def network(run):
     r = run.rng
     # the known defect D17 as a deterministic replay: fragment 2 of a 3-fragment message delayed 4 s, pure delay
@@ -458,5 +608,8 @@ def run(run):
     receiver(run)
     run.notes.append("receiver %.1fs" % (time.time() - t)); t = time.time()
     network(run)
-    run.notes.append("network %.1fs" % (time.time() - t))
+    run.notes.append("network %.1fs" % (time.time() - t)); t = time.time()
+    fresh(run)
+    run.notes.append("fresh %.1fs" % (time.time() - t))
     run.rules.append(RULE)
+    run.rules.append(FRESH_RULE)
